@@ -226,19 +226,45 @@ class ModbusRtuFramer(ModbusFramer):
             unit = [unit]
         self.addToFrame(data)
         single = kwargs.get("single", False)
-        if self.isFrameReady():
-            if self.checkFrame():
+        while True:
+            if not self._isFrameComplete():
+                # nothing, or only the beginning of a frame, is buffered:
+                # keep it and wait for the rest
+                _logger.debug("Frame - [{}] not ready".format(data))
+                break
+            if self.isFrameReady() and self.checkFrame():
                 if self._validate_unit_id(unit, single):
                     self._process(callback)
                 else:
                     _logger.debug("Not a valid unit id - {}, "
                                   "ignoring!!".format(self._header['uid']))
-                    self.resetFrame()
+                    # skip only the frame addressed to another unit
+                    self.advanceFrame()
             else:
                 _logger.debug("Frame check failed, ignoring!!")
                 self.resetFrame()
-        else:
-            _logger.debug("Frame - [{}] not ready".format(data))
+                break
+
+    def _isFrameComplete(self):
+        """
+        Check if the buffer holds at least one complete frame, judging by
+        the size its function code (and byte count) announce.
+
+        :returns: True if a whole frame is buffered, False otherwise
+        """
+        if len(self._buffer) <= self._hsize:
+            return False
+        try:
+            func_code = byte2int(self._buffer[1])
+            pdu_class = self.decoder.lookupPduClass(func_code)
+            size = pdu_class.calculateRtuFrameSize(self._buffer)
+        except (IndexError, struct.error):
+            # too short to even tell the size
+            size = 256
+        # an RTU frame never exceeds 256 bytes: a larger (or still unknown)
+        # size at that point can only come from garbage, which checkFrame()
+        # will then reject
+        return len(self._buffer) >= min(size, 256)
 
     def buildPacket(self, message):
         """
